@@ -1352,7 +1352,10 @@ class P2wshAddress(SegwitAddress):
         """Allow creation only from hash160 of public key"""
 
         super().__init__(
-            address=None, witness_program=None, script=script, version=P2WSH_ADDRESS_V0
+            address=address,
+            witness_program=witness_program,
+            script=script,
+            version=P2WSH_ADDRESS_V0,
         )  # non-variable version
 
     def to_script_pub_key(self) -> Script:
